@@ -23,3 +23,13 @@ int fputc(int c, FILE *stream)
     return c;
 }
 int fflush(FILE *stream) { if (stream == stdout) g_out_flushes++; return 0; }
+
+/* fprintf: only its target stream matters here (C09: is anything written to the server channel?) */
+#include <stdarg.h>
+unsigned int g_stdout_fprintf;
+int fprintf(FILE *stream, const char *format, ...)
+{
+    (void)format;
+    if (stream == stdout) g_stdout_fprintf++; else g_other_stream_writes++;
+    return 0;
+}
